@@ -29,6 +29,7 @@ RULE = (
     "per position. Oracle: same delivered prefix as the stdlib twin with the same fault, the raised object "
     "`is` the injected one, failed party not used again, no ordinary return. evaluations = executions "
     "(positions); non-trivial = the fault fired; distinct = distinct (scenario shape, party, position)."
+    " Extensions of rounds 9-12: None as first / last / any item for pass-along tools."
 )
 COMPONENTS = COMPONENTS_BASE
 ASSUMPTIONS = [
